@@ -61,7 +61,7 @@ def run(tier, seed, replay=None):
                 # exactness (power-of-two divisors: bit exact; others: one rounding per entry of the first core)
                 back = (q * s).full()
                 rel = float((back - xf0).norm() / xf0.norm())
-                if rel > 4e-16 * 4: V.fail("x / scalar is not exact", dict(desc, scalar=str(s), rel_err=rel))
+                if not (rel <= 4e-16 * 4): V.fail("x / scalar is not exact", dict(desc, scalar=str(s), rel_err=rel))
                 q2 = x / s                                   # the dividend is used again: same quotient
                 if not all(torch.equal(a, b_) for a, b_ in zip(q.cores, q2.cores)): V.fail("x / scalar changed x (second quotient differs)", dict(desc, scalar=str(s)))
                 bad = solverkit.intact(snaps, list(ops.values()))
@@ -75,7 +75,7 @@ def run(tier, seed, replay=None):
                 q0 = s0 / y                                  # an earlier quotient with another scalar on the same shape: the next one must not depend on it
                 s = rng.choice([1.0, 2.0, -3.0, 5]); q = s / y; num = torch.full(N, float(s), dtype=cdt); tol = 1e-12
                 res0 = float((q0.full() * y.full() - torch.full(N, float(s0), dtype=cdt)).norm() / math.sqrt(float(np.prod(N))) / abs(s0))
-                if res0 > CONST * (1e-6 if cdt == torch.float32 else 1e-12) + 1e-12: V.fail("scalar/y: an earlier quotient is wrong", dict(desc, rel_residual=res0, scalar=s0))
+                if not (res0 <= CONST * (1e-6 if cdt == torch.float32 else 1e-12) + 1e-12): V.fail("scalar/y: an earlier quotient is wrong", dict(desc, rel_residual=res0, scalar=s0))
             else:
                 tol = rng.choice([1e-10, 1e-8, 1e-6, 1e-4])
                 prec = rng.choice([None, "c"])
@@ -100,7 +100,7 @@ def run(tier, seed, replay=None):
             V.fail("%s: result has the wrong shape / is ill formed" % form, desc); continue
         res = float((q.full() * y.full() - num).norm() / max(1e-300, float(num.norm())))
         if cdt == torch.float32: tol = max(tol, 1e-6)            # single precision cannot certify less
-        if res > CONST * tol + 1e-12:
+        if not (res <= CONST * tol + 1e-12):
             V.fail("%s: q*y differs from the numerator by more than %g*tol" % (form, CONST), dict(desc, rel_residual=res, tol=tol, ranks=[int(r) for r in q.R]))
     # ---- the local iterative solver on COMPLEX data (the division of complex tensors reaches it as soon as a local problem exceeds max_full): the contract of
     # gmres_restart - relative residual below the threshold on well-conditioned systems - in complex arithmetic (Hermitian inner product, unitary rotations)
